@@ -2810,40 +2810,45 @@ def check_round4(ctx: Ctx, seed: int) -> bool:
 
     # ---- (21) user subclasses of the shipped classes behave by their own methods
     class KPasses(P.utils.ReduceToBason):
-        """a user stepper derived from the shipped one: stops after exactly k passes, whatever the loss does"""
+        """a user stepper derived from the shipped one: stops after exactly k passes, whatever the loss does (lesson 48: every name the
+        harness adds to a subclass of a library class carries the prefix vfh17_; only the documented interface is overridden)"""
 
         def __init__(self, k_):
             super().__init__(steps=1000)
-            self.k_, self.mine = k_, 0
+            self.vfh17_k, self.vfh17_mine = k_, 0
 
         def continual(self):
-            return self.mine < self.k_
+            return self.vfh17_mine < self.vfh17_k
 
         def step(self, loss):
-            self.mine += 1
-            if self.mine > self.k_ + 100:      # the loop does not consult this object's own continual(): never hang the check
+            self.vfh17_mine += 1
+            if self.vfh17_mine > self.vfh17_k + 100:      # the loop does not consult this object's own continual(): never hang the check
                 raise RuntimeError("runaway ICP loop: the user stepper's continual() is not consulted")
 
         def reset(self):
             super().reset()
-            self.mine = 0
+            self.vfh17_mine = 0
 
     class ShiftedICP(P.module.ICP):
         """a user module derived from ICP: always starts from its own stored guess"""
 
         def __init__(self, guess):
             super().__init__()
-            self.guess = guess
+            self.vfh17_guess = guess
 
         def forward(self, source, target):     # noqa: D102
-            return super().forward(source, target, init=self.guess)
+            return super().forward(source, target, init=self.vfh17_guess)
 
-    class NoRefineEPnP(P.module.EPnP):
-        """a user module derived from EPnP whose refinement is the identity"""
+    class OwnCameraEPnP(P.module.EPnP):
+        """a user module derived from EPnP that always uses its own camera (documented `forward(points, pixels, intrinsics)` only; the
+        earlier version overrode the private `_refine`, a name a refactor may change: lesson 48)"""
 
-        @staticmethod
-        def _refine(beta, nullv, bases):
-            return beta
+        def __init__(self, cam):
+            super().__init__(refine=False)
+            self.vfh17_cam = cam
+
+        def forward(self, points, pixels):     # noqa: D102
+            return super().forward(points, pixels, intrinsics=self.vfh17_cam)
 
     for dtn in ("float64", "float32"):
         dt = getattr(torch, dtn)
@@ -2857,8 +2862,8 @@ def check_round4(ctx: Ctx, seed: int) -> bool:
                     o1 = P.module.ICP(stepper=st)(a, b)
                     o2 = P.module.ICP(stepper=FixedStepper(k_))(a, b)
                     ctx.count("round4.subclass")
-                    if st.mine != k_ or not lie_equal(o1, o2):
-                        ctx.fail(case, f"subclass: ICP with a user stepper derived from ReduceToBason (stop after {k_} passes) made {st.mine} passes / differs from "
+                    if st.vfh17_mine != k_ or not lie_equal(o1, o2):
+                        ctx.fail(case, f"subclass: ICP with a user stepper derived from ReduceToBason (stop after {k_} passes) made {st.vfh17_mine} passes / differs from "
                                        f"exactly {k_} passes by {float((raw(o1).double() - raw(o2).double()).abs().max()):.3e}")
                         ok = False
                 g = P.SE3(torch.tensor([0.1, -0.2, 0.05] + U.rand_quat(r, "small"), dtype=torch.float64).to(dt))
@@ -2870,12 +2875,12 @@ def check_round4(ctx: Ctx, seed: int) -> bool:
             pts, pix, K, T, sp = _epnp_problem(r, 12, torch.float64)
             with quiet():
                 warnings.simplefilter("ignore")
-                e1 = NoRefineEPnP(K, refine=True)(pts, pix)
+                e1 = OwnCameraEPnP(K)(pts, pix)
                 e2 = P.module.EPnP(K, refine=False)(pts, pix)
             d = float((raw(e1) - raw(e2)).abs().max())
             ctx.count("round4.subclass")
             if not (d <= 1e-8):
-                ctx.fail(case, f"subclass: a user EPnP whose _refine is the identity differs from EPnP(refine=False) by {d:.3e}")
+                ctx.fail(case, f"subclass: a user EPnP whose forward passes its own camera to super().forward differs from EPnP(K, refine=False) by {d:.3e}")
                 ok = False
             ok = epnp_compare(ctx, dict(sp, kind="round4", what="subclass-epnp", refine=False), e1, T, pts, pix, K) and ok
         except Exception as ex:  # noqa: BLE001
@@ -3359,6 +3364,270 @@ def check_cube_rotations(ctx: Ctx) -> bool:
     return ok
 
 
+# ----------------------------------------------------------------------------- round 6: classes (51), (42), (48)
+
+class LenStepper(FixedStepper):
+    """(42) a valid user stepper that is *falsy* when it is handed over: a recorder whose length is the number of losses seen"""
+
+    def __len__(self):
+        return len(self.seen)
+
+
+class BoolStepper(FixedStepper):
+    """(42) a valid user stepper whose truth value is continual(): handed over exhausted (after an earlier run) it is falsy"""
+
+    def __bool__(self):
+        return self.continual()
+
+
+def r6_quat(axis, ang):
+    a = torch.tensor(axis, dtype=torch.float64)
+    a = a / a.norm()
+    return torch.cat([a * math.sin(ang / 2), torch.tensor([math.cos(ang / 2)], dtype=torch.float64)])
+
+
+def r6_item(r: random.Random, it: dict, N: int):
+    """one registration problem of a mixed batch: (source, target, true 7-vector or None), float64.
+    noisy : round cloud of extent 5·scale, rigid motion + Gaussian noise `noise`·extent on the target: the closest-point error settles
+            at a non-zero floor;
+    slow  : densely sampled space curve (`curve`) of extent ~0.5·scale that slides along its own tangent (rotation `rot` about the axis of
+            the arc + the matching shift): exact correspondences exist, point-to-point ICP needs 10–35 small passes to lock on;
+    fast  : round cloud of extent `scale` with a small exact motion (locks on in 2–4 passes)"""
+    sc = it["scale"]
+    if it["type"] == "noisy":
+        A = 5 * sc * torch.tensor([[r.gauss(0, 1) for _ in range(3)] for _ in range(N)], dtype=torch.float64)
+        q = r6_quat([r.gauss(0, 1) for _ in range(3)], 0.04)
+        t = sc * torch.tensor([0.2, 0.1, -0.1], dtype=torch.float64)
+        At = A @ U.quat_mat_t(q).T + t + it["noise"] * 5 * sc * torch.tensor([[r.gauss(0, 1) for _ in range(3)] for _ in range(N)], dtype=torch.float64)
+        return A, At, None
+    if it["type"] == "slow":
+        th = torch.tensor(sorted(r.random() for _ in range(N)), dtype=torch.float64) * 1.5
+        if it["curve"] == "arc":
+            B = 0.2 * torch.stack([2 * torch.cos(th), 2 * torch.sin(th), 0.5 * torch.sin(3 * th)], -1)
+        else:
+            B = 0.4 * torch.stack([torch.cos(th), torch.sin(th), 0.05 * torch.sin(7 * th)], -1)
+        q = r6_quat([0.0, 0.0, 1.0], it["rot"])
+        t = torch.tensor([0.02, 0.01, 0.0], dtype=torch.float64) * (it["rot"] / 0.03)
+    else:
+        B = torch.tensor([[r.gauss(0, 1) for _ in range(3)] for _ in range(N)], dtype=torch.float64)
+        q = r6_quat([r.gauss(0, 1) for _ in range(3)], 0.01)
+        t = torch.tensor([0.004, -0.003, 0.002], dtype=torch.float64)
+    B, t = B * sc, t * sc
+    return B, B @ U.quat_mat_t(q).T + t, torch.cat([t, q])
+
+
+def r6_stepper(kind: str):
+    P = pp()
+    if kind == "default":
+        return None
+    if kind == "bason60":
+        return P.utils.ReduceToBason(steps=60)
+    if kind == "bason_tight":
+        return P.utils.ReduceToBason(steps=80, patience=3, decreasing=1e-4, tol=0.0)
+    if kind == "fixed40":
+        return FixedStepper(40)
+    if kind == "len40":
+        return LenStepper(40)
+    raise ValueError(kind)
+
+
+def r6_icp(stp):
+    P = pp()
+    return P.module.ICP() if stp is None else P.module.ICP(stepper=stp)
+
+
+def check_mixed_batch(ctx: Ctx, spec) -> bool:
+    """class (51): ONE ICP call on a batch that mixes problems of different kind and scale. Every item is judged by itself: it must be
+    a valid SE3 element, its mean squared closest-point distance must not exceed that of the same item registered alone with the same
+    stepper settings (the passes of an item do not depend on its neighbours, and further passes never raise that distance: theorem
+    icp_monotone_mscd; the per-item passes of the batched loop: icpLoopB_eq_iter), and an item with exact correspondences that is recovered alone must be recovered in the batch"""
+    P = pp()
+    r = random.Random(spec["seed"])
+    dtn, N = spec["dtype"], spec["N"]
+    dt, eps = getattr(torch, dtn), common.EPS[dtn]
+    probs = [r6_item(r, it, N) for it in spec["items"]]
+    lead = tuple(spec.get("lead") or (len(probs),))
+    S = torch.stack([p[0] for p in probs]).to(dt)
+    T = torch.stack([p[1] for p in probs]).to(dt)
+    S64, T64 = S.double(), T.double()
+    case = dict(spec)
+    desc = ", ".join(f"item {i}: {it['type']}" + (f" {it['curve']} rot {it['rot']}" if it["type"] == "slow" else "") + f" scale {it['scale']:g}"
+                     for i, it in enumerate(spec["items"]))
+    stp = r6_stepper(spec["stepper"])
+    try:
+        with warnings.catch_warnings():
+            warnings.simplefilter("ignore")
+            m = r6_icp(stp)
+            out = m(S.reshape(lead + (N, 3)), T.reshape(lead + (N, 3)))
+            alone = [r6_icp(r6_stepper(spec["stepper"]))(S[b], T[b]) for b in range(len(probs))]
+    except Exception as ex:  # noqa: BLE001
+        ctx.fail(case, f"raises: ICP raises {type(ex).__name__}: {str(ex)[:100]} on a mixed batch ({desc}; N={N}, {dtn}, stepper {spec['stepper']})")
+        return False
+    ctx.count("round6.mixed.calls")
+    ok = True
+    if type(out).__name__ != "LieTensor" or out.ltype != P.SE3_type or tuple(out.shape) != lead + (7,) or out.dtype != dt:
+        ctx.fail(case, f"type: ICP returned {type(out).__name__} shape {tuple(getattr(out, 'shape', ()))} for a batch {lead}")
+        return False
+    if stp is not None and spec["stepper"] in ("fixed40", "len40"):
+        if m.stepper is not stp:
+            ctx.fail(case, f"stepper: ICP does not use the stepper object it was given ({type(stp).__name__}, falsy at hand-over: {not bool(stp)})")
+            ok = False
+        elif len(stp.seen) != stp.n or stp.continual():
+            ctx.fail(case, f"stepper: ICP left its loop after {len(stp.seen)} passes although the user stepper asked for {stp.n} "
+                           f"(continual() is {stp.continual()}); mixed batch: {desc}; N={N}, {dtn}")
+            ok = False
+    O = raw(out).double().reshape(len(probs), 7)
+    for b, (_, _, truth) in enumerate(probs):
+        cid = dict(case, item=b)
+        Oa = raw(alone[b]).double().reshape(7)
+        if not torch.isfinite(O[b]).all() or not (abs(float(O[b, 3:7].norm()) - 1) <= UNIT_TOL * eps):
+            ctx.fail(cid, f"valid: ICP result of item {b} of a mixed batch is not a valid SE3 element: {O[b].tolist()} ({desc}; N={N}, {dtn})")
+            ok = False
+            continue
+        if not torch.isfinite(Oa).all():
+            ctx.fail(cid, f"valid: ICP on item {b} alone returns non-finite numbers ({desc}; N={N}, {dtn})")
+            ok = False
+            continue
+        D = float(T64[b].abs().max())
+        cond = cloud_cond(S64[b])
+        Em, Ea = U.mscd(U.apply_vec(O[b], S64[b]), T64[b]), U.mscd(U.apply_vec(Oa, S64[b]), T64[b])
+        delta = ICP_DELTA_K * eps * D * cond
+        tolE = delta * delta + 2 * delta * math.sqrt(Ea) + 64 * eps * Ea + 1e-300
+        ctx.count("round6.mixed.items")
+        if not (Em <= Ea + tolE):
+            ctx.fail(cid, f"batch-item: item {b} of a mixed batch ends at mean squared closest-point distance {Em:.6e}, the same item alone "
+                          f"(same stepper settings: {spec['stepper']}) at {Ea:.6e} (allowance {tolE:.2e}): its passes depend on the other items "
+                          f"({desc}; N={N}, {dtn}, lead {lead})")
+            ok = False
+        if truth is not None:
+            want = U.apply_vec(truth, S64[b])
+            tolr = ICP_REC_K * eps * D * cond
+            ra, rm = float((U.apply_vec(Oa, S64[b]) - want).abs().max()), float((U.apply_vec(O[b], S64[b]) - want).abs().max())
+            if ra <= tolr:
+                ctx.count(f"round6.mixed.{spec['items'][b]['type']}-recovered-alone")
+                track(f"round6.recover.{dtn}", rm, tolr)
+                if not (rm <= tolr):
+                    ctx.fail(cid, f"recover: exact rigid motion of item {b} is recovered when the item is registered alone (max point error {ra:.3e}) "
+                                  f"but not in a batch next to other problems: {rm:.3e} > {tolr:.3e}, i.e. {rm / D:.1e} of the extent "
+                                  f"({desc}; N={N}, {dtn}, stepper {spec['stepper']}, lead {lead})")
+                    ok = False
+            else:
+                ctx.count(f"round6.mixed.{spec['items'][b]['type']}-not-recovered-alone")
+    return ok
+
+
+def mixed_corpus(quick: bool):
+    no = lambda sc, nz=0.1: {"type": "noisy", "scale": sc, "noise": nz}                    # noqa: E731
+    sl = lambda sc, rot, curve="arc": {"type": "slow", "curve": curve, "rot": rot, "scale": sc}   # noqa: E731
+    fa = lambda sc: {"type": "fast", "scale": sc}                                          # noqa: E731
+    specs = [
+        dict(seed=1, dtype="float64", N=120, stepper="bason60", items=[no(1.0), sl(1.0, 0.1)]),
+        dict(seed=2, dtype="float32", N=120, stepper="bason60", items=[sl(1.0, 0.15, "circle"), no(1.0)]),
+        dict(seed=3, dtype="float64", N=120, stepper="default", items=[no(1e3), sl(1.0, 0.06), fa(1.0)]),
+        dict(seed=4, dtype="float64", N=120, stepper="fixed40", items=[fa(1e-3), no(1.0), sl(1e3, 0.1)]),
+        dict(seed=5, dtype="float32", N=120, stepper="len40", items=[no(1.0, 0.3), sl(1.0, 0.1, "circle")]),
+        dict(seed=6, dtype="float64", N=200, stepper="bason_tight", items=[sl(1.0, 0.06), no(1.0), fa(1e3), sl(1e-2, 0.1, "circle")], lead=[2, 2]),
+    ]
+    if not quick:
+        specs += [
+            dict(seed=7, dtype="float32", N=200, stepper="default", items=[no(1.0), sl(1.0, 0.03)]),
+            dict(seed=8, dtype="float64", N=200, stepper="default", items=[no(1.0, 0.1), sl(1.0, 0.03)]),
+            dict(seed=9, dtype="float32", N=200, stepper="bason_tight", items=[sl(1e3, 0.15), no(1e-3), fa(1.0)]),
+            dict(seed=10, dtype="float64", N=120, stepper="bason60", items=[fa(1e-3), fa(1.0), fa(1e3)]),
+            dict(seed=11, dtype="float64", N=120, stepper="bason_tight", items=[sl(1e-3, 0.1), sl(1.0, 0.1), sl(1e3, 0.1)]),
+            dict(seed=12, dtype="float32", N=120, stepper="fixed40", items=[no(1e2), sl(1.0, 0.15)], lead=[1, 2]),
+        ]
+    return [dict(s_, kind="round6", what="mixed-batch") for s_ in specs]
+
+
+def random_mixed_spec(r: random.Random) -> dict:
+    nb = r.choice([2, 2, 3, 4])
+    items = [{"type": "noisy", "scale": 10.0 ** r.choice([-3, -1, 0, 0, 0, 1, 3]), "noise": r.choice([0.05, 0.1, 0.3])},
+             {"type": "slow", "curve": r.choice(["arc", "circle"]), "rot": r.choice([0.03, 0.06, 0.1, 0.15]), "scale": 10.0 ** r.choice([-3, -1, 0, 0, 0, 1, 3])}]
+    while len(items) < nb:
+        items.append(r.choice([{"type": "fast", "scale": 10.0 ** r.choice([-3, 0, 3])},
+                               {"type": "slow", "curve": "arc", "rot": r.choice([0.06, 0.1]), "scale": 10.0 ** r.choice([-2, 0, 2])},
+                               {"type": "noisy", "scale": 10.0 ** r.choice([-2, 0, 2]), "noise": 0.2}]))
+    r.shuffle(items)
+    return {"kind": "round6", "what": "mixed-batch", "seed": r.randrange(1 << 30), "dtype": r.choice(["float64", "float32"]), "N": r.choice([120, 200]),
+            "stepper": r.choice(["default", "bason60", "bason60", "bason_tight", "fixed40", "len40"]), "items": items,
+            "lead": r.choice([[nb], [nb], [1, nb], [nb, 1]] + ([[2, 2]] if nb == 4 else []))}
+
+
+def check_falsy_steppers(ctx: Ctx) -> bool:
+    """(42) user steppers that are valid but falsy when they are handed to the constructor: the module must use the GIVEN object"""
+    P = pp()
+    r = random.Random(4242)
+    ok = True
+    for dtn in ("float64", "float32"):
+        dt = getattr(torch, dtn)
+        a, b = _rand_problem(r, 9, dt)
+        for name in ("len", "bool-exhausted"):
+            case = {"kind": "round6", "what": "falsy-stepper", "stepper": name, "dtype": dtn}
+            try:
+                with warnings.catch_warnings():
+                    warnings.simplefilter("ignore")
+                    if name == "len":
+                        st = LenStepper(3)
+                    else:
+                        st = BoolStepper(3)
+                        P.module.ICP(stepper=st)(a, b)          # exhausts it: continual() is False, so the object is falsy now
+                    falsy = not bool(st)
+                    m = P.module.ICP(stepper=st)
+                    got = m(a, b)
+                    want = P.module.ICP(stepper=FixedStepper(3))(a, b)
+            except Exception as ex:  # noqa: BLE001
+                ctx.fail(case, f"raises: ICP with a user stepper that is falsy at hand-over ({name}) raises {type(ex).__name__}: {str(ex)[:100]}")
+                ok = False
+                continue
+            ctx.count("round6.falsy-stepper")
+            if not falsy:
+                raise InfraError("C17: the falsy stepper of the harness is not falsy at hand-over")
+            if m.stepper is not st or len(st.seen) != 3 or not lie_equal(got, want):
+                ctx.fail(case, f"stepper: ICP(stepper=<valid user stepper, falsy at hand-over: {name}>) does not drive the given object: "
+                               f"module.stepper is the object: {m.stepper is st}, passes it saw: {len(st.seen)} (asked 3), result equals that of an "
+                               f"ordinary 3-pass stepper: {lie_equal(got, want)} ({dtn})")
+                ok = False
+    return ok
+
+
+def check_epnp_mixed_scales(ctx: Ctx) -> bool:
+    """class (51) for EPnP: scenes of scale 1e-2, 1, 1e2 (same pixels) in ONE call; every item is judged against its own true pose"""
+    P = pp()
+    r = random.Random(5151)
+    ok = True
+    for refine in (False, True):
+        for scales in ((1e-2, 1.0, 1e2), (1e3, 1.0), (1.0, 1e-3, 1.0, 1e3)):
+            if ctx.quick and refine and len(scales) != 3:
+                continue
+            scenes = [_epnp_problem(r, 10, torch.float64) for _ in scales]
+            K = scenes[0][2]
+            pts = torch.stack([sc * s_[0] for sc, s_ in zip(scales, scenes)])
+            T = P.SE3(torch.stack([torch.cat([sc * s_[3].tensor()[:3], s_[3].tensor()[3:]]) for sc, s_ in zip(scales, scenes)]))
+            pix = P.point2pixel(pts, K, T)
+            case = dict(scenes[0][4], kind="round6", what="epnp-mixed-scales", scales=list(scales), refine=refine)
+            try:
+                with warnings.catch_warnings():
+                    warnings.simplefilter("ignore")
+                    est = P.module.EPnP(K, refine=refine)(pts, pix)
+            except Exception as ex:  # noqa: BLE001
+                ctx.fail(case, f"raises: EPnP raises {type(ex).__name__}: {str(ex)[:100]} on a batch of scenes of scales {scales}")
+                ok = False
+                continue
+            ctx.count("round6.epnp-mixed-scales")
+            ok = epnp_compare(ctx, case, est, T, pts, pix, K) and ok
+    return ok
+
+
+def run_round6(ctx: Ctx, n: int):
+    ctx.note_case(("round6", "fixed"), True)
+    check_falsy_steppers(ctx)
+    check_epnp_mixed_scales(ctx)
+    for spec in mixed_corpus(ctx.quick) + [random_mixed_spec(ctx.rng) for _ in range(n)]:
+        ctx.note_case(("round6", spec["stepper"], len(spec["items"]), spec["dtype"]), True)
+        check_mixed_batch(ctx, spec)
+
+
 # ----------------------------------------------------------------------------- entry points
 
 def run(ctx: Ctx):
@@ -3378,6 +3647,7 @@ def run(ctx: Ctx):
     run_round5(ctx, ctx.pick(0, 15))
     ctx.note_case(("cube_rot",), True)
     check_cube_rotations(ctx)
+    run_round6(ctx, ctx.pick(0, 40))
     run_epnp(ctx, especs)
     run_epnp_scale(ctx, ctx.pick(25, 800))
     run_histories(ctx, ctx.pick(3, 50), ctx.pick(2, 40))
@@ -3423,6 +3693,13 @@ def replay(ctx: Ctx, case) -> bool:
         check_epnp_case(ctx, c)
     elif kind == "cube_rot":
         check_cube_rotations(ctx)
+    elif kind == "round6":
+        if c.get("what") == "mixed-batch":
+            check_mixed_batch(ctx, c)
+        elif c.get("what") == "falsy-stepper":
+            check_falsy_steppers(ctx)
+        else:
+            check_epnp_mixed_scales(ctx)
     elif kind == "round5":
         check_round5(ctx, c["seed"])
     elif kind == "round4":
